@@ -25,7 +25,7 @@ def decide(run, recs, res, errors, theorems, module):
     broken = standard_proof_obligations(run, module, theorems)
     # the same theorems about the methods as translated from the current peak.rs (through proofs/PeakTie.v), when that tie stands
     if module == "C13":
-        broken += source_corollaries(run, "C13s", ['C13s_shift', 'C13s_scale_by', 'C13s_normalize_shape', 'C13s_truncate_after', 'C13s_ignore_below', 'C13s_normalize_sum', 'C13s_normalize_ratio', 'C13s_truncate_sum', 'C13s_ignore_sum'], ('peak',))
+        broken += source_corollaries(run, "C13s", ['C13s_shift', 'C13s_scale_by', 'C13s_normalize_shape', 'C13s_truncate_after', 'C13s_ignore_below', 'C13s_normalize_sum', 'C13s_normalize_ratio', 'C13s_truncate_sum', 'C13s_ignore_sum', 'C13s_shift_frame', 'C13s_normalize_frame', 'C13s_ignore_below_frame', 'C13s_truncate_after_frame'], ('peak',))
     if module == "C14":
         broken += source_corollaries(run, "C14s", ['C14s_drop_last', 'C14s_slice', 'C14s_peak_eq', 'C14s_fused_stepwise'], ('peak',))
     if module == "C13":
